@@ -187,6 +187,13 @@ func BVar(name string, s Sort) *Term {
 	return mk(&Term{Op: "bvar", Sort: s, Name: fmt.Sprintf("%s?%d", name, freshCtr["bv$"+name])})
 }
 
+// BVarCanon: a bound variable whose name is determined by a key (the specification closure it
+// belongs to), so that re-evaluating the same quantified clause yields the identical term — known
+// facts then simplify syntactically instead of being re-proved modulo renaming by the solver.
+func BVarCanon(name, key string, s Sort) *Term {
+	return mk(&Term{Op: "bvar", Sort: s, Name: smtName(name) + "?c" + smtName(key)})
+}
+
 // App applies an uninterpreted function.
 func App(name string, res Sort, args ...*Term) *Term {
 	name = smtName(name)
